@@ -429,18 +429,25 @@ var ruleLast = &Rule{
 					if mi, ok := v.(*ssa.MakeInterface); ok {
 						v = mi.X
 					}
-					cv, ok := v.(*ssa.Convert)
-					if !ok || !isInt64(cv.Type()) {
+					// int64(size − 1), or int64(size) − 1: the size is never
+					// negative here, so both are exact
+					if !isInt64(v.Type()) {
 						continue
 					}
-					bo, ok := cv.X.(*ssa.BinOp)
+					peel := func(x ssa.Value) ssa.Value {
+						if cv, ok := x.(*ssa.Convert); ok {
+							return cv.X
+						}
+						return x
+					}
+					bo, ok := peel(v).(*ssa.BinOp)
 					if !ok || bo.Op != token.SUB {
 						continue
 					}
 					if k, ok := constInt(bo.Y); !ok || k != 1 {
 						continue
 					}
-					if u, ok := bo.X.(*ssa.UnOp); ok {
+					if u, ok := peel(bo.X).(*ssa.UnOp); ok {
 						if f, _ := p.execFieldOf(u.X); f == sizeField {
 							good = true
 						}
